@@ -1,4 +1,4 @@
 SPECIFICATION XSpec
-CONSTANTS PairSrc = "file" CtxU = "falsyq" MaxFlow = 0 KeyU = "six" Writ = "ends"
+CONSTANTS PairSrc = "file" CtxU = "falsyq" MaxFlow = 0 KeyU = "six" Writ = "ends" NObj = 0
 INVARIANT EmitClasses
 CHECK_DEADLOCK FALSE
